@@ -34,7 +34,7 @@ LEDGER = {
                 mc=([M("mintburn,create,flags,issue", supply=3)],
                     [M("mintburn,create,flags,issue,ESDTTransfer", supply=3, ctr=2, accsample=6), M("mintburn,create,roles,issue", supply=3, hs=("u0a", "u0b"))]),
                 need=dict(supply_ok=20, overdraft_rej=2, role_rej=2)),
-    "C03": dict(profile="roles", preds=["P03_Authority", "P03_Grant", "P03_Denied", "P03_RoleOpsExact"],
+    "C03": dict(profile="roles", preds=["P03_Authority", "P03_Denied", "P03_RoleOpsExact"],
                 mc=([M("mintburn,roles,acct"), M("create,handover,metaops"), M("create,metaops,nftroles", hs=("u0a",))],
                     [M("mintburn,roles,acct", supply=3, accsample=3), M("create,handover,metaops,ESDTNFTTransfer", ctr=2, hs=("u0a", "u1a"), accsample=2), M("mintburn,create,handover,acct", hs=("u0a", "u1a"))]),
                 need=dict(role_ok=10, role_rej=5, acct_ok=3, acct_rej=2, handover_ok=1, flag_ok=3)),
